@@ -106,7 +106,8 @@ type h265Var struct {
 
 var h265Levels = []int{90, 93, 120}
 var h265Q = []h265Var{
-	{w: 1280, h: 720, timing: true, ticks: 1, tscale: 25},
+	// 50/3 fps: FRAME-RATE must be the value ROUNDED to three decimals (16.667, not 16.666)
+	{w: 1280, h: 720, timing: true, ticks: 3, tscale: 50},
 	// picture reordering with VUI timing: the DTS extractor reads the slice headers, dts < pts
 	{w: 1920, h: 1080, timing: true, ticks: 1, tscale: 50, reorder: 2},
 	{w: 1280, h: 720, cropBottom: 8, reorder: 2}, // no VUI: the DTS extractor returns pts without reading slices
